@@ -2,7 +2,7 @@
 #ifndef VERIF_C11_GUARD_H_
 #define VERIF_C11_GUARD_H_
 namespace c11 {
-const int kCpuBudgetSeconds = 40;
+const int kCpuBudgetSeconds = 10;
 struct CaseGuard { CaseGuard(); ~CaseGuard(); CaseGuard(const CaseGuard&) = delete; };
 }
 #endif
